@@ -139,7 +139,7 @@ class Check:
 
     def __init__(self, name, run=None, strategy=None, cases=None, custom=None,
                  examples=(200, 2000), shards=(4, 16), rule="", exhaustive=False,
-                 kind=None, weight=1.0):
+                 kind=None, env=None, variant="plain"):
         self.name = name
         self.run = run
         self.strategy = strategy
@@ -150,6 +150,8 @@ class Check:
         self.rule = rule
         self.exhaustive = exhaustive
         self.kind = kind or ("hyp" if strategy else "enum" if cases else "custom")
+        self.env = dict(env or {})          # extra environment of the worker process
+        self.variant = variant              # build variant: plain | asan
 
 
 # ---------------------------------------------------------------- known findings
